@@ -245,7 +245,8 @@ def gen_set(rng, label=None, backup=None, docgen_opts=None):
                     # blanks around or inside
                     "-H", rng.choice(["newanc", "newanc", "&newanc",
                                       "*newanc ", "new anc", "& newanc",
-                                      " newanc"])]
+                                      " newanc", "new,anc", "anc[1]",
+                                      "{anc}"])]
     else:
         segs, node = any_scalar()
         path = _path(rng, segs)
